@@ -173,6 +173,28 @@ def parts_of(spec):
     return [{k: spec[k] for k in ("driver", "harness", "harness_args", "harness_timeout", "race", "gomemlimit") if k in spec}]
 
 
+def regen_skeletons(ctx, requests, extra_methods=()):
+    """Regenerates lean/Hive/Gen/<pid>_Skel.lean (namespace Hive.Gen.<pid>Skel) with the synchronisation
+    skeletons of the requested functions: requests = ["kvstore/sequence.go:Sequence.Next", ...] relative to the
+    repository root.  The property's Lean files state the expected skeletons as `theorem Cxx_skeleton_* :
+    skel_X = [...] := by decide`, so a change of the code's synchronisation structure breaks a proof obligation.
+    Returns a list of obligation failures (for SPEC['regen'])."""
+    out = os.path.join(LEAN, "Hive", "Gen", f"{ctx.pid}_Skel.lean")
+    tmp = os.path.join(ctx.scratch, f"{ctx.pid}_Skel.lean")
+    args = ["go", "run", "./tools/extract-sync", tmp, f"Hive.Gen.{ctx.pid}Skel"] + ["+" + m for m in extra_methods]
+    args += [os.path.join(ctx.repo, r) for r in requests]
+    rc, log = sh(args, cwd=HARNESS, timeout=600)
+    if rc != 0 or not os.path.exists(tmp):
+        return [{"kind": "skeleton-extractor", "detail": tail(log, 20)}]
+    new = open(tmp).read()
+    with LakeLock():
+        old = open(out).read() if os.path.exists(out) else None
+        if old != new:
+            open(out, "w").write(new)
+            ctx.notes.append(f"regenerated Hive/Gen/{ctx.pid}_Skel.lean differs from the previous copy")
+    return []
+
+
 def tail(s, n):
     return "\n".join(s.strip().split("\n")[-n:])
 
